@@ -13,4 +13,11 @@ def run(check):
     for label in LIVE[check.tier]:
         check.model_check('live_' + label, 'USimProps', 'FairSpec', scopedom.CONFIGS[label], [], properties=['Termination'],
                           coverage=False)
+    # design level, beyond the exhaustive bounds: random behaviours of the whole-vocabulary configuration (all
+    # primitives in one model: 3 roots, 7 activities, 4 scopes, locks, queue, channel, resources, tickers), every
+    # safety invariant evaluated on every state
+    import storm
+    check.simulate('sim_big', 'USimProps', 'Spec', storm.BIG,
+                   ['NoFault', 'NoForeignSignal', 'RunLive', 'CascadeShape', 'MutualExclusion', 'OwnerConsistent',
+                    'ShareBounded', 'NoStuck'], num=60 if check.tier == 'quick' else 3000, depth=120)
     runs = scopedom.run(check, OBS, LABELS[check.tier], conform=True)
